@@ -554,7 +554,57 @@ RULE = ("E4: complete enumeration. normpath: every string of length <= L over {a
         "directories, with redo-ifchange, redo and redo -j2 on the real binary: exit 0, one execution, one Files row")
 
 
+# ---------------------------------------------------------------------------
+# scheduled half (E2): several spellings of one file while its lock is contended
+
+def e2_scenarios(tier):
+    from ..e2 import scenarios as SC
+    from ..worlds import S, World
+    w = World("one-d", {"s": ["0", "1"], "d/k": ["0"]}, {"x.do": [S(deps=["s"])]}, ["x"], ["x"])
+    vis = SC.LOCKS + ["tok-read", "tok-write", "select-order"]
+    q = tier == "quick"
+    L = []
+    # a second invocation names x twice while the first one holds its lock: both spellings find it busy
+    L.append((SC.scn("two-spellings-while-locked", w, ["redo-ifchange x", "redo --no-log x ./x"], visible=vis), 1 if q else 2))
+    L.append((SC.scn("three-spellings-while-locked-j2", w, ["redo-ifchange x", "redo --no-log -j2 ./x d/../x x"], visible=vis), 1 if q else 2))
+    # two invocations, each with its own spelling: one record, one lock byte, no overlap
+    L.append((SC.scn("two-invocations-two-spellings", w, ["redo-ifchange ./x", "redo-ifchange d/../x"], visible=vis), 1 if q else 2))
+    if not q:
+        L.append((SC.scn("three-spellings-j2", w, ["redo --no-log -j2 x ./x d/../x"], visible=vis), 2))
+        L.append((SC.scn("redo-vs-redo-two-spellings", w, ["redo --no-log ./x x", "redo --no-log d/../x .//x"], visible=vis), 2))
+    return L
+
+
+def e2_oracle(scn, res):
+    from collections import Counter
+    from . import c06
+    out = [v for v in c06.oracle(scn, res) if v[0]["kind"] == "overlapping-executions"]
+    if res["verdict"] != "done":
+        return out
+    per_run = Counter(tuple(l.split(" ")[1:3]) for l in res["trace"] if l.startswith("B "))
+    for (tgt, runid), n in sorted(per_run.items()):
+        if n > 1:
+            out.append(({"kind": "one-file-built-%d-times-by-one-invocation" % n, "scenario": scn["name"], "target": tgt},
+                        {"trace": res["trace"]}))
+    for n, rc in res["roots"].items():
+        if rc != 0:
+            out.append(({"kind": "command-failed", "scenario": scn["name"], "rc": rc}, {"stderr": res["stderr"].get(n, "")[-500:]}))
+    names = [r[0] for r in (res.get("dbrows") or []) if os.path.normpath(r[0]) == "x"]
+    if names != ["x"]:
+        out.append(({"kind": "records-for-one-file", "scenario": scn["name"], "names": names}, {}))
+    if res["files"].get("x") != "x(0)\n":
+        out.append(({"kind": "wrong-content", "scenario": scn["name"]}, {"got": res["files"].get("x")}))
+    return out
+
+
 def main(tier):
+    from .. import e2prop
+    rc2 = e2prop.run_property(
+        PID, tier, e2_scenarios(tier), e2_oracle, level="exploration",
+        rule="E2 half: several spellings of one file in one command while another invocation holds its lock, and two "
+             "invocations with different spellings; every schedule with <= b deviations (quick 1, thorough 2)",
+        budget_s=600 if tier == "quick" else 3000)
+    e2cov = json.load(open(common.EVIDENCE_DIR / "C15.json"))["coverage"]
     t0 = time.time()
     verdict = common.Verdict(PID)
     cov = {"evaluations": 0, "distinct_nontrivial": 0, "samples": [], "rule": RULE, "exhaustive": True}
@@ -567,8 +617,11 @@ def main(tier):
     finally:
         shutil.rmtree(scratch, ignore_errors=True)
         common.cleanup_scratch()
-    rc = verdict.finish(max_print=20)
-    common.write_evidence(PID, tier, "exploration", cov, time.time() - t0, verdict.count,
+    cov["e2_schedules"] = {k: e2cov[k] for k in ("schedules", "states", "transitions", "scenarios", "distinct_final_outcomes", "caps_hit")}
+    cov["evaluations"] += e2cov["schedules"]
+    cov["exhaustive"] = cov["exhaustive"] and e2cov["exhaustive"]
+    rc = verdict.finish(max_print=20) or rc2
+    common.write_evidence(PID, tier, "exploration", cov, time.time() - t0, verdict.count + (1 if rc2 else 0),
                           ["the kernel's path resolution is the ground truth for 'which file a path names'",
                            "reference Clean written from Pike's four rules (rv/e4.py), not from helpers.rs",
                            "UTF-8 inputs without NUL or newline; alphabets {a,b,.,/} and {'', ., .., a, bb}",
@@ -583,6 +636,9 @@ def main(tier):
 
 def replay(path):
     doc = json.load(open(path))
+    if doc.get("engine") == "E2":
+        from .. import e2prop
+        return e2prop.replay(PID, {s["name"]: s for s, _ in e2_scenarios("thorough")}, e2_oracle, path)
     chk = doc.get("check")
     verdict = common.Verdict(PID)
     scratch = common.scratch_root() / "c15"
